@@ -14,6 +14,10 @@ fn main() {
         let tier = if args[2] == "thorough" { Tier::Thorough } else { Tier::Quick };
         std::process::exit(verif_mc::props::c07::worker(tier));
     }
+    if args[1] == "c16-one" {
+        verif_mc::common::quiet_panics();
+        std::process::exit(verif_mc::props::c16::one(&args[2], args.get(3).map(|s| s.as_str()).unwrap_or("")));
+    }
     if args[1] == "replay" {
         let text = std::fs::read_to_string(&args[2]).expect("read replay file");
         let doc: serde_json::Value = serde_json::from_str(&text).expect("parse replay file");
